@@ -176,5 +176,15 @@ func Quiesce() { time.Sleep(30 * time.Millisecond) }
 // the engine it is Quiesce (virtual time).
 func QuiesceFor(d time.Duration) { time.Sleep(d) }
 
+// QuiesceWait is QuiesceFor that returns early once done is closed (natively:
+// the harness closes it when the goroutines it waits for have returned).
+func QuiesceWait(done <-chan struct{}, max time.Duration) {
+	select {
+	case <-done:
+	case <-time.After(max):
+	}
+	time.Sleep(30 * time.Millisecond)
+}
+
 // QuiesceModel is the engine's version of Quiesce.
 func QuiesceModel() { <-AfterModel(1000 * time.Hour) }
